@@ -162,11 +162,11 @@ type CSPair struct {
 
 type Args struct {
 	CS   []CSPair `json:"cs"`
-	K    int   `json:"k"`
-	V    int   `json:"v"`
-	T    int64 `json:"t"`
-	N    int64 `json:"n"`
-	Fast bool  `json:"fast"`
+	K    int      `json:"k"`
+	V    int      `json:"v"`
+	T    int64    `json:"t"`
+	N    int64    `json:"n"`
+	Fast bool     `json:"fast"`
 }
 
 type Ret struct {
